@@ -201,7 +201,7 @@ class ResourceClass(object):
             id=id).first()
         if db_rc is None:
             # Deleted since the caller looked it up.
-            raise exception.ResourceClassNotFound(resource_class=name)
+            raise exception.ResourceClassNotFound(name=name)
         db_rc.update(updates)
         try:
             db_rc.save(context.session)
